@@ -394,22 +394,32 @@ class Run:
                "solver_model_raw": {k: v for k, v in list((r.get("model") or {}).items())[:40]},
                "path": list(ob.path)}
         outcome = None
-        if inputs is not None and hasattr(self.mod, "replay"):
+        # replays on the real code share a time budget per run: a change that breaks
+        # many obligations at once is reported for all of them, replayed for the first ones
+        budget = float(os.environ.get("VERIF_REPLAY_BUDGET_S", "240"))
+        spent = getattr(self, "_replay_spent", 0.0)
+        t_r = time.time()
+        if spent > budget:
+            outcome = {"failed": None, "detail": f"not replayed: the replay budget of this run ({budget:.0f} s) is used up"}
+        elif inputs is not None and hasattr(self.mod, "replay"):
             try:
                 outcome = self.mod.replay(unit.name, inputs, name)
             except Exception:
                 outcome = {"failed": None, "detail": "replay harness error: " + traceback.format_exc()[-600:]}
-        if hasattr(self.mod, "replay") and not (outcome and outcome.get("failed")) \
+        if spent <= budget and hasattr(self.mod, "replay") and not (outcome and outcome.get("failed")) \
                 and r.get("backend") != "cvc5":
             # the smallest model did not fail on the real code: try further models
             try:
                 for cand in candidate_models(ob, ctx_inputs, limit=16, full=True):
+                    if time.time() - t_r > 60:
+                        break
                     out2 = self.mod.replay(unit.name, cand, name)
                     if out2.get("failed"):
                         outcome, doc["model_inputs"], doc["model_kind"] = out2, cand, "further model"
                         break
             except Exception:
                 pass
+        self._replay_spent = spent + (time.time() - t_r)
         doc["replay"] = outcome
         fn.write_text(json.dumps(doc, indent=1, default=str))
         rel = fn.relative_to(HERE)
